@@ -57,10 +57,15 @@ def run_store(t, v, ops):
     except Exception:
         return 'p.ctor=err'
     views = [(t, x)]
+    parent = {0: None}
     snaps = []
     out = []
     for k, op in enumerate(ops):
         status = 'ok'
+        cost = None
+        # everything is hashed before the op (so that the op's own hashing cost is visible)
+        for vt, vv in views:
+            E(lambda: vv.hash_tree_root())
         try:
             o = op[0]
             if o == 'child':
@@ -68,12 +73,21 @@ def run_store(t, v, ops):
                 ct, cv = child_of(pt, pv, int(op[2]))
                 if isinstance(ct, str) or kind(ct) in ('Bv', 'Bl') or cv is None:
                     raise ValueError("not a mutable child view")
+                parent[len(views)] = int(op[1])
                 views.append((ct, cv))
             elif o in ('mut', 'bad'):
                 vt, vv = views[int(op[1])]
-                apply_op(vt, vv, op[2])
+                top = int(op[1])
+                while parent.get(top) is not None:
+                    top = parent[top]
+
+                def run():
+                    apply_op(vt, vv, op[2])
+                    views[top][1].hash_tree_root()
+                _, cost = P.hashes_during(run)
             elif o == 'copy':
                 vt, vv = views[int(op[1])]
+                parent[len(views)] = None
                 views.append((vt, vv.copy()))
             elif o == 'snap':
                 vt, vv = views[int(op[1])]
@@ -83,6 +97,8 @@ def run_store(t, v, ops):
         except Exception:
             status = 'err'
         out.append('%d.p=%s' % (k, status))
+        if cost is not None and status == 'ok':
+            out.append('%d.cost=%d' % (k, cost))
         out.append('%d.views=%s' % (k, ','.join(view_str(vt, vv) for vt, vv in views)))
         out.append('%d.snaps=%s' % (k, ','.join(snap_str(st, sn) for st, sn in snaps)))
     return ';'.join(out)
